@@ -1516,12 +1516,13 @@ void Image::mask_blit(const Image& source, ssize_t x, ssize_t y, ssize_t w,
   // have to cover the entire destination or source image. The mask is indexed
   // in source-space, though, so its upper-left corner must be aligned with the
   // source image's upper-left corner.
-  if ((mask.get_width() < static_cast<size_t>(w)) ||
-      (mask.get_height() < static_cast<size_t>(h))) {
+  clamp_blit_dimensions(*this, source, &x, &y, &w, &h, &sx, &sy);
+
+  if ((w > 0) && (h > 0) &&
+      ((mask.get_width() < static_cast<size_t>(sx + w)) ||
+          (mask.get_height() < static_cast<size_t>(sy + h)))) {
     throw runtime_error("mask is too small to cover copied area");
   }
-
-  clamp_blit_dimensions(*this, source, &x, &y, &w, &h, &sx, &sy);
 
   for (ssize_t yy = 0; yy < h; yy++) {
     for (ssize_t xx = 0; xx < w; xx++) {
